@@ -58,3 +58,8 @@ pub mod c14 {
     use super::*;
     include!("c14.rs");
 }
+pub mod c15 {
+    #[allow(unused_imports)]
+    use super::*;
+    include!("c15.rs");
+}
